@@ -84,7 +84,7 @@ PROPS['C03'] = {
     'runs': [{'name': 'asan', 'flavour': 'asan', 'driver': 'drv_c03'},
              {'name': 'clang', 'flavour': 'clang-asan', 'driver': 'drv_c03', 'env': {'PV_SCALE': '20'}, 'shards': 6},
              {'name': 'native', 'flavour': 'asan-native', 'driver': 'drv_c03', 'env': {'PV_SCALE': '20'}, 'shards': 4}],
-    'require': {'encode.calls': 400000, 'bits.seeds': 13531, 'purity.histories_agree': 1000, 'reserved_bit.decodes': 100, 'oracle.vectors_reproduced': 3000, 'lengths.encoded': 1500, 'pyvec.phrases_equal_to_python_spec': 3000, 'lengths.ko.decile8': 3, 'lengths.ko.decile6': 5, 'lengths.jp.decile4': 1},
+    'require': {'concurrent.phrases_equal_specification': 30000, 'encode.calls': 400000, 'bits.seeds': 13531, 'purity.histories_agree': 1000, 'reserved_bit.decodes': 100, 'oracle.vectors_reproduced': 3000, 'lengths.encoded': 1500, 'pyvec.phrases_equal_to_python_spec': 3000, 'lengths.ko.decile8': 3, 'lengths.ko.decile6': 5, 'lengths.jp.decile4': 1},
 }
 
 _C16_FL = ['opt-O0', 'opt-O1', 'opt-O2', 'opt-O3', 'opt-Os', 'clang-O2']
@@ -108,7 +108,7 @@ PROPS['C19'] = {
         {'name': 'uchar', 'flavour': 'uchar', 'driver': 'drv_c19', 'args': ['--tag', 'unsigned-char'], 'shards': 8},
     ],
     'transcript_pairs': [('schar', 'uchar')],
-    'require': {'transcript.cases_compared': 10000, 'allwords.decoded': 40960, 'edges.tokens': 2 * 2 * 2048 * 16, 'forms.ideographic_space': 1000, 'ops.crypt.spanish': 20, 'ops.crypt.hangul': 20},
+    'require': {'transcript.cases_compared': 10000, 'allwords.decoded': 40960, 'edges.tokens': 2 * 2 * 2048 * 16, 'forms.ideographic_space': 1000, 'ops.crypt.spanish': 20, 'ops.crypt.hangul': 20, 'boundary.nfkd_length.size-1': 50, 'boundary.nfkd_length.size+2': 50},
     'assumptions': ['char signedness is varied with -fsigned-char / -funsigned-char on x86-64 gcc; other ABI differences of ARM/PowerPC targets are not reproduced'],
 }
 
@@ -151,7 +151,7 @@ PROPS['C01'] = {
              {'name': 'clang', 'flavour': 'clang-asan', 'driver': 'drv_c01', 'env': {'PV_SCALE': '15'}, 'shards': 6},
              {'name': 'native', 'flavour': 'asan-native', 'driver': 'drv_c01', 'env': {'PV_SCALE': '10'}, 'shards': 4},
              {'name': 'asan-dbg', 'flavour': 'asan-dbg', 'driver': 'drv_c01', 'env': {'PV_SCALE': '10'}, 'shards': 4}],
-    'require': {'auto.ok': 50000, 'auto.mult_lang': 100, 'ambiguous.constructed': 500, 'roundtrip.how.created': 5000, 'roundtrip.how.crypted': 5000, 'axes.cases': 3000, 'second_generation.ok': 100000},
+    'require': {'concurrent.roundtrips_equal_model': 15000, 'auto.ok': 50000, 'auto.mult_lang': 100, 'ambiguous.constructed': 500, 'roundtrip.how.created': 5000, 'roundtrip.how.crypted': 5000, 'axes.cases': 3000, 'second_generation.ok': 100000},
 }
 MANIFEST_TEXT['C01'] = {'technique': 'runtime monitoring: encode/decode round trips observed through every seed observer vs reference model (ASan/UBSan, NDEBUG and assertion-enabled builds)',
     'text': 'Seeds (boundary-biased and random; created, loaded or encrypted) are encoded in every language for boundary and random coins under all 8 enabled-feature masks, compared with the model phrase, and decoded by both decoders; the result is compared through store bytes, birthday, all feature masks, encrypted flag and the full PBKDF2 argument list. Auto-detection must return the same seed and language or MULT_LANG exactly when the model matcher finds a second recognising language; ambiguous phrases are constructed for every overlapping language pair. Every coin, birthday and feature value is visited at least once. A clang-built stripe of the same workload guards against compiler-dependent behaviour.',
@@ -198,7 +198,7 @@ PROPS['C06'] = {
              {'name': 'native', 'flavour': 'asan-native', 'driver': 'drv_c06', 'env': {'PV_SCALE': '15'}, 'shards': 4},
              # no 32-bit C library exists in this image: the library is built freestanding for i386 and x86-64 and the two programs must print the same transcript
              {'name': 'ilp32', 'kind': 'ilp32', 'flavour': 'ilp32', 'driver': 'ilp32'}],
-    'require': {'roundtrip.ok': 50000, 'ilp32.transcript_lines_compared': 5000, 'buffers.alignment_mod8.1': 10000, 'buffers.alignment_mod8.7': 10000, 'fields.16bit_rows': 2000, 'fields.8bit_rows': 30, 'load.bytes8-9.recomputed-check.OK': 1000, 'load.bytes8-9.recomputed-check.ERR_UNSUPPORTED': 1000,
+    'require': {'concurrent.loads_equal_specification': 50000, 'roundtrip.ok': 50000, 'ilp32.transcript_lines_compared': 5000, 'buffers.alignment_mod8.1': 10000, 'buffers.alignment_mod8.7': 10000, 'fields.16bit_rows': 2000, 'fields.8bit_rows': 30, 'load.bytes8-9.recomputed-check.OK': 1000, 'load.bytes8-9.recomputed-check.ERR_UNSUPPORTED': 1000,
                 'load.bytes8-9.recomputed-check.ERR_FORMAT': 1000, 'load.bytes30-31.ERR_CHECKSUM': 1000, 'load.random-with-framing+recomputed-check.OK': 100},
 }
 MANIFEST_TEXT['C06'] = {'technique': 'runtime monitoring: store/load on exact-size heap buffers vs model image codec; exhaustive field sweeps around valid images (ASan/UBSan) + ledger',
@@ -223,7 +223,7 @@ PROPS['C11'] = {
     'exhaustive_possible': True,
     'runs': [{'name': 'plain-wrap', 'flavour': 'plain-wrap', 'driver': 'drv_c11', 'timeout': 1800},
              {'name': 'asan-wrap', 'flavour': 'asan-wrap', 'driver': 'drv_c11', 'env': {'PV_SCALE': '10'}, 'shards': 6}],
-    'require': {'creates.boundary.injected': 4100, 'creates.boundary.libc': 4100, 'creates.special.libc': 20, 'creates.random-in-range.injected': 50000,
+    'require': {'concurrent.birthdays_equal_model': 20000, 'creates.boundary.injected': 4100, 'creates.boundary.libc': 4100, 'creates.special.libc': 20, 'creates.random-in-range.injected': 50000,
                 'creates.random-64bit.libc': 10000, 'persist.phrase_ok': 10000, 'persist.crypt_ok': 1024},
     'require_tier': {'thorough': {'creates.sweep.injected': 40000000}},
 }
@@ -236,7 +236,7 @@ PROPS['C12'] = {
     'runs': [{'name': 'asan', 'flavour': 'asan', 'driver': 'drv_c12'},
              {'name': 'native', 'flavour': 'asan-native', 'driver': 'drv_c12', 'env': {'PV_SCALE': '15'}, 'shards': 4},
              {'name': 'msan', 'flavour': 'msan', 'driver': 'drv_c12', 'env': {'PV_SCALE': '15', 'PV_NO_STATIC_MONITOR': '1'}, 'shards': 4}],
-    'require': {'involution.restored': 20000, 'crypt.under_a_different_feature_mask': 10000, 'cases.all_clauses_held': 20000, 'crypt.mask_source.boundary': 5000, 'crypt.mask_source.random': 5000,
+    'require': {'concurrent.applications_equal_model': 20000, 'involution.restored': 20000, 'crypt.under_a_different_feature_mask': 10000, 'cases.all_clauses_held': 20000, 'crypt.mask_source.boundary': 5000, 'crypt.mask_source.random': 5000,
                 'equivalent_spellings.agree(forms really differ)': 1500, 'crypt.password.empty': 500, 'crypt.password.hangul': 500, 'crypt.with_failing_allocator': 5000},
 }
 MANIFEST_TEXT['C12'] = {'technique': 'runtime monitoring: PBKDF2 monitor with scripted masks + model of the password operation, observed through every seed observer and round trips (ASan/UBSan)',
@@ -248,7 +248,7 @@ PROPS['C09'] = {
     'runs': [{'name': 'asan', 'flavour': 'asan', 'driver': 'drv_c09', 'timeout': 1800},
              {'name': 'native', 'flavour': 'asan-native', 'driver': 'drv_c09', 'env': {'PV_SCALE': '10'}, 'shards': 4, 'timeout': 1800},
              {'name': 'msan', 'flavour': 'msan', 'driver': 'drv_c09', 'env': {'PV_SCALE': '10', 'PV_NO_STATIC_MONITOR': '1'}, 'shards': 4, 'timeout': 1800}],
-    'require': {'outcome.NUM_WORDS': 1000, 'outcome.LANG': 1000, 'outcome.MULT_LANG': 1000, 'outcome.unique.OK': 1000, 'outcome.unique.ERR_CHECKSUM': 1000, 'outcome.unique.ERR_UNSUPPORTED': 1000,
+    'require': {'concurrent.strings_satisfying_the_relation': 5000, 'outcome.NUM_WORDS': 1000, 'outcome.LANG': 1000, 'outcome.MULT_LANG': 1000, 'outcome.unique.OK': 1000, 'outcome.unique.ERR_CHECKSUM': 1000, 'outcome.unique.ERR_UNSUPPORTED': 1000,
                 'armed.auto.ERR_MEMORY': 1000, 'armed.memory_before_unsupported': 300, 'armed.checksum_before_memory': 300, 'ambiguous.constructed': 500,
                 'multi3.constructed': 500, 'multi3.phrases_recognised_by_3_languages': 200, 'lang_out_null.ERR_MULT_LANG': 1000, 'lang_out_null.OK': 1000},
 }
@@ -267,7 +267,7 @@ PROPS['C14'] = {
              {'name': 'fuzz-phrase', 'kind': 'fuzz', 'flavour': 'fuzz', 'driver': 'fuzz_api', 'mode': 0, 'runs_quick': 150000, 'runs_thorough': 5000000},
              {'name': 'fuzz-password', 'kind': 'fuzz', 'flavour': 'fuzz', 'driver': 'fuzz_api', 'mode': 1, 'runs_quick': 100000, 'runs_thorough': 3000000},
              {'name': 'fuzz-buffer', 'kind': 'fuzz', 'flavour': 'fuzz', 'driver': 'fuzz_api', 'mode': 2, 'runs_quick': 200000, 'runs_thorough': 8000000}],
-    'require': {'inputs.on_readonly_page_before_guard': 10000, 'class.padded-to-buffer-boundary': 5000, 'class.raw-bytes': 1000, 'class.length-edit': 1000,
+    'require': {'concurrent.calls_well_behaved': 20000, 'inputs.on_readonly_page_before_guard': 10000, 'class.padded-to-buffer-boundary': 5000, 'class.raw-bytes': 1000, 'class.length-edit': 1000,
                 'calls.load.ERR_FORMAT': 1000, 'calls.load.ERR_MEMORY': 1000, 'flood.phrases': 3000, 'huge.strings': 3, 'small_stack.threads': 2000, 'flood.nfkd_length.size-1': 100, 'flood.decoded_ok': 500, 'fuzz.execs.fuzz-phrase': 50000, 'fuzz.execs.fuzz-password': 50000, 'fuzz.execs.fuzz-buffer': 50000, 'calls.crypt.len>=4096': 20, 'calls.decode.ERR_MEMORY.len<size-2': 100},
 }
 MANIFEST_TEXT['C14'] = {'technique': 'runtime monitoring: ASan+UBSan (NDEBUG and assertion-enabled builds) on grammar/boundary/raw inputs with exact-size and read-only-before-guard-page buffers, per-case watchdog, allocator ledger; coverage-guided libFuzzer (clang) on three entry points',
